@@ -3,6 +3,21 @@
 //! Lean endpoint model (`drv_mux`), stimulus by stimulus; property monitors run on the
 //! implementation's own trace (independent of the model).
 //!
+//! Wire-level and end-of-case monitors (each demands only what the property text demands, and is
+//! judged only while no frame was injected and no flow id was used twice in the case, so that a hit
+//! cannot be a consequence of the known flow-id-reuse finding):
+//! * C06 `abort-not-signalled`: an application drops a stream it has not shut down, the peer
+//!   application has not let go of it, no Reset of the flow has passed either way, the connection is
+//!   up and the sink open ⇒ the endpoint's Reset is on the wire when it is quiescent again;
+//!   `peer-read-pending-after-abort`: at the end of the case (everything delivered, read and
+//!   accepted) the peer's read of an aborted stream has reported end-of-stream.
+//! * C07 `open-ok-without-accept`: at the end of the case every open that resolved Ok has come out
+//!   of `accept` on the other endpoint (both Multiplexors alive, both tasks running). Generator: in a
+//!   quarter of the C07 cases a burst of opens against an accept queue of capacity 1–2 that is not
+//!   being emptied.
+//! * C15 `reset-after-bind-accept`: an endpoint that answered Bind(id) with Finish(id) sends no
+//!   Reset(id) unless another stream frame with that id has reached or left it in between.
+//!
 //! `--focus Cxx` biases generation and selects which monitor failures / disagreements this run
 //! reports. Non-trivial case: at least one stream or datagram or bind exchange completed end to end
 //! (a frame sent by one endpoint was processed by the other).
